@@ -29,13 +29,24 @@ def run(ctx):
     n = "150" if ctx.tier == "thorough" else "12"
     r2 = common.correspond(ctx, ["hist", "--histories", n, "--suites", "1,2,3" if ctx.tier == "quick" else "1,2,3,4,5,6,7", "--providers", "mixed",
                                  "--focus", "C13"], "tree", "hist-tree")
+    # PSK chains of REAL commits: the PSK-commit scenarios of C18 (1-4 external and resumption PSKs, by value and by reference, shuffled
+    # builder order) give `eks` rows whose PSK list is read from the commit message in message order; only the rows are used here
+    # (the direct oracle of that stream belongs to C18)
+    r3 = common.correspond(ctx, ["c18", "--scenarios", "120" if ctx.tier != "thorough" else "1500"], "c13", "c18")
+    ctx.cov["psk_commit_rows"] = {"eks": r3["kinds"].get("eks", 0), "extpub": r3["kinds"].get("extpub", 0), "psk": r3["kinds"].get("psk", 0),
+                                  "stream_rows": r3["rows"], "differences": r3["ndiff"]}
+    if not r3["ok"]:
+        ctx.violation("correspondence", "PSK-commit harness or model driver failed", {"log": r3["out"][-1500:]}, no_input=True)
+    if r3["ndiff"]:
+        ctx.violation("correspondence", "the epoch secrets / confirmation tag of a real PSK commit (or a PSK-chain row) differ from the RFC 9420 chain over the commit's PSK list in message order",
+                      {"first_differing_rows": r3["diffs"], "total": r3["ndiff"]})
     th_rows = r2["kinds"].get("th", 0) + r2["kinds"].get("mtag", 0)
     ctx.cov["transcript_rows"] = {"th": r2["kinds"].get("th", 0), "thp": r2["kinds"].get("thp", 0), "mtag": r2["kinds"].get("mtag", 0),
                                   "eks (epoch secrets and confirmation tag of real path-less commits)": r2["kinds"].get("eks", 0),
                                   "stream_rows": r2["rows"], "differences": r2["ndiff"]}
-    ctx.cov["traces_validated_against_impl"] = r["rows"] + r2["rows"]
-    ctx.cov["evaluations"] = r["rows"] + r2["rows"]
-    ctx.cov["correspondence_differences"] = r["ndiff"] + r2["ndiff"]
+    ctx.cov["traces_validated_against_impl"] = r["rows"] + r2["rows"] + r3["rows"]
+    ctx.cov["evaluations"] = r["rows"] + r2["rows"] + r3["rows"]
+    ctx.cov["correspondence_differences"] = r["ndiff"] + r2["ndiff"] + r3["ndiff"]
     if not r2["ok"]:
         ctx.violation("correspondence", "history harness or model driver failed", {"log": r2["out"][-1500:]}, no_input=True)
     if r2["ndiff"]:
